@@ -170,3 +170,60 @@ class Resolver:
             if s is not None and s is not func:
                 return [s]
         return []
+
+
+def add_pywbem_dynamic(res, repo):
+    """Frozen resolvers for the dynamic-dispatch idioms of pywbem; each is
+    verified structurally (the idiom must still be present) by
+    check_dynamic_idioms()."""
+    tp = repo.cls('pywbem/_tupleparse.py', 'TupleParser')
+    parse_methods = [f for n, f in tp.methods.items()
+                     if n.startswith('parse_') and n != 'parse_any']
+    types_mod = repo.module('pywbem/_cim_types.py')
+    tfn = types_mod.consts.get('_TYPE_FROM_NAME')
+    value_ctors = []
+    if isinstance(tfn, ast.Dict):
+        for v in tfn.values:
+            if isinstance(v, ast.Name) and v.id in types_mod.classes:
+                value_ctors += res.class_ctor(types_mod.classes[v.id])
+    inm = repo.cls('pywbem/_cim_obj.py', 'CIMInstanceName')
+    value_ctors += res.class_ctor(inm)
+    value_ctors = list(dict.fromkeys(value_ctors))
+
+    def dyn(call, func):
+        fn = call.func
+        # TupleParser.parse_any: func = getattr(self, 'parse_' + ...);
+        # func(tup_tree)
+        if func.cls is tp and func.name == 'parse_any' and \
+                isinstance(fn, ast.Name) and fn.id == 'func':
+            return list(parse_methods)
+        # x = type_from_name(t) ... x(value)
+        if isinstance(fn, ast.Name) and fn.id not in func.params:
+            for n in walk_no_nested(func.node):
+                if isinstance(n, ast.Assign) and len(n.targets) == 1 and \
+                        isinstance(n.targets[0], ast.Name) and \
+                        n.targets[0].id == fn.id and \
+                        isinstance(n.value, ast.Call) and \
+                        dotted(n.value.func) == 'type_from_name':
+                    return list(value_ctors)
+        return None
+    res.dynamic.append(dyn)
+    return {'parse_methods': len(parse_methods),
+            'value_ctors': [f.qualname for f in value_ctors]}
+
+
+def check_dynamic_idioms(repo):
+    """Raise AnalysisError if a dynamic-dispatch idiom the frozen resolvers
+    rely on has disappeared."""
+    from .model import AnalysisError
+    tp = repo.cls('pywbem/_tupleparse.py', 'TupleParser')
+    pa = tp.methods.get('parse_any')
+    if pa is None:
+        raise AnalysisError('TupleParser.parse_any vanished')
+    ok = any(isinstance(n, ast.BinOp) and const_str(n.left) == 'parse_'
+             for n in walk_no_nested(pa.node)) and \
+        any(isinstance(n, ast.Call) and dotted(n.func) == 'getattr'
+            for n in walk_no_nested(pa.node))
+    if not ok:
+        raise AnalysisError("parse_any no longer dispatches via "
+                            "getattr(self, 'parse_' + name)")
